@@ -870,3 +870,199 @@ Proof.
   unfold become_probe. destruct (pr_state pr); try discriminate. cbn.
   repeat split; try reflexivity. lia.
 Qed.
+
+(* ------------------------------------------------------------------ *)
+(* 8. compaction is transparent above the compaction point *)
+
+Lemma skipn_skipn' {A} (l : list A) a b : skipn a (skipn b l) = skipn (b + a) l.
+Proof.
+  revert l. induction b as [|b IH]; intros l; [reflexivity|].
+  destruct l as [|x t]; [rewrite !skipn_nil; reflexivity|]. cbn [skipn Nat.add]. apply IH.
+Qed.
+
+Section Compaction.
+  Variable m : MemStorage.mem.
+  Variable ci : N.
+  Hypothesis HI : RepInv m.
+  Hypothesis H1 : first_of m < ci.
+  Hypothesis H2 : ci < next_of m.
+
+  Let k := N.to_nat (ci - first_of m).
+  Let m' := set_entries m (skipn k (entries m)).
+
+  Lemma cpt_compact : compact m ci = Ok m' /\ RepInv m' /\ first_of m' = ci.
+  Proof. exact (compact_ok m ci HI H1 H2). Qed.
+
+  Lemma cpt_next : next_of m' = next_of m.
+  Proof.
+    destruct cpt_compact as (_ & _ & Hf). unfold next_of. rewrite Hf.
+    subst m'. cbn [entries set_entries]. rewrite skipn_length.
+    unfold next_of in H2. subst k. lia.
+  Qed.
+
+  Lemma cpt_last_index : MemStorage.last_index m' = MemStorage.last_index m.
+  Proof.
+    destruct cpt_compact as (_ & HI' & _).
+    pose proof (last_index_next m HI). pose proof (last_index_next m' HI').
+    pose proof cpt_next. lia.
+  Qed.
+
+  Lemma cpt_entry_at i : ci <= i -> entry_at m' i = entry_at m i.
+  Proof.
+    intros Hi. destruct cpt_compact as (_ & _ & Hf). unfold entry_at. rewrite Hf.
+    destruct (i <? ci) eqn:E1; [lia|]. destruct (i <? first_of m) eqn:E2; [lia|].
+    subst m'. cbn [entries set_entries]. rewrite nth_error_skipn'. f_equal. subst k. lia.
+  Qed.
+
+  Lemma cpt_storage_term i : ci <= i -> storage_term m' i = storage_term m i.
+  Proof.
+    intros Hi. destruct cpt_compact as (_ & HI' & Hf).
+    rewrite (term_spec m' i HI'), (term_spec m i HI), Hf, (cpt_entry_at i Hi).
+    change (snap_index m') with (snap_index m). change (snap_term m') with (snap_term m).
+    destruct HI as (_ & Hs & _).
+    destruct (i =? snap_index m) eqn:E0; [lia|].
+    destruct (i <? ci) eqn:E1; [lia|]. destruct (i <? first_of m) eqn:E2; [lia|]. reflexivity.
+  Qed.
+
+  Lemma cpt_storage_entries lo hi max ctx :
+    ci <= lo -> lo <= hi ->
+    (r <- storage_entries m' lo hi max ctx ;; Ok (snd r)) =
+    (r <- storage_entries m lo hi max ctx ;; Ok (snd r)).
+  Proof.
+    intros Hlo Hhi. destruct cpt_compact as (_ & HI' & Hf).
+    unfold storage_entries. rewrite (first_index_ok m' HI'), (first_index_ok m HI), Hf.
+    cbn [bind]. rewrite cpt_last_index.
+    destruct (lo <? ci) eqn:E1; [lia|]. destruct (lo <? first_of m) eqn:E2; [lia|].
+    destruct (MemStorage.last_index m =? u64_max); [reflexivity|].
+    destruct (MemStorage.last_index m + 1 <? hi); [reflexivity|].
+    change (trig_log m') with (trig_log m).
+    destruct (trig_log m && can_async ctx); [reflexivity|].
+    assert (Hk : (k < length (entries m))%nat) by (unfold next_of in H2; subst k; lia).
+    destruct (skipn_cons_nth (entries m) k Hk) as (e' & t' & Hsk & Hn).
+    assert (He' : e_index e' = ci).
+    { pose proof (entries_head_index m' e' t') as Hh. subst m'. cbn [entries set_entries] in Hh.
+      rewrite (Hh Hsk). exact Hf. }
+    destruct (entries m) as [|e0 t0] eqn:El; [cbn in Hk; lia|].
+    pose proof (entries_head_index m e0 t0 El) as He0.
+    subst m'. cbn [entries set_entries]. rewrite ?El, Hsk, He', He0.
+    destruct (hi <? ci) eqn:E3; [lia|]. destruct (hi <? first_of m) eqn:E4; [lia|].
+    destruct (N.to_nat (hi - ci) <? N.to_nat (lo - ci))%nat eqn:E5; [lia|].
+    destruct (N.to_nat (hi - first_of m) <? N.to_nat (lo - first_of m))%nat eqn:E6; [lia|].
+    assert (Hlen : length (e' :: t') = (length (e0 :: t0) - k)%nat).
+    { rewrite <- Hsk. apply skipn_length. }
+    destruct (length (e' :: t') <? N.to_nat (hi - ci))%nat eqn:E7;
+      destruct (length (e0 :: t0) <? N.to_nat (hi - first_of m))%nat eqn:E8;
+      try reflexivity; try (exfalso; subst k; lia).
+    cbn [bind snd]. rewrite <- Hsk, skipn_skipn'.
+    replace (k + N.to_nat (lo - ci))%nat with (N.to_nat (lo - first_of m)) by (subst k; lia).
+    replace (N.to_nat (hi - ci) - N.to_nat (lo - ci))%nat
+      with (N.to_nat (hi - first_of m) - N.to_nat (lo - first_of m))%nat by lia.
+    reflexivity.
+  Qed.
+
+  (* RaftLog level *)
+  Variable l : raft_log.
+  Hypothesis Hst : store l = m.
+  Let l' := set_store l m'.
+
+  Lemma cpt_log_last_index : last_index l' = last_index l.
+  Proof.
+    unfold last_index. subst l'. cbn [unst set_store store].
+    destruct (u_maybe_last_index (unst l)); [reflexivity|].
+    unfold storage_last_index. rewrite Hst. apply cpt_last_index.
+  Qed.
+
+  Lemma cpt_log_first_index :
+    RaftLog.first_index l' = match u_maybe_first_index (unst l) with
+                             | Some i => Ok i
+                             | None => Ok ci
+                             end /\
+    RaftLog.first_index l = match u_maybe_first_index (unst l) with
+                            | Some i => Ok i
+                            | None => Ok (first_of m)
+                            end.
+  Proof.
+    destruct cpt_compact as (_ & HI' & Hf).
+    unfold RaftLog.first_index. subst l'. cbn [unst set_store store].
+    destruct (u_maybe_first_index (unst l)); [split; reflexivity|].
+    unfold storage_first_index. rewrite Hst, (first_index_ok m' HI'), (first_index_ok m HI), Hf.
+    split; reflexivity.
+  Qed.
+
+  Lemma cpt_log_term i : ci <= i -> RaftLog.term l' i = RaftLog.term l i.
+  Proof.
+    intros Hi. unfold RaftLog.term. destruct cpt_log_first_index as [F' F]. rewrite F', F.
+    rewrite cpt_log_last_index.
+    change (unst l') with (unst l). change (store l') with m'. rewrite Hst.
+    rewrite (cpt_storage_term i Hi).
+    destruct (u_maybe_first_index (unst l)) as [fi|]; [reflexivity|].
+    cbn [bind]. pose proof (first_pos m HI).
+    destruct (ci =? 0) eqn:E1; [lia|]. destruct (first_of m =? 0) eqn:E2; [lia|].
+    destruct (i <? ci - 1) eqn:E3; [lia|]. destruct (i <? first_of m - 1) eqn:E4; [lia|].
+    reflexivity.
+  Qed.
+
+  Lemma cpt_log_slice lo hi max :
+    ci <= lo -> ci <= last_index l + 1 ->
+    RaftLog.slice l' lo hi max = RaftLog.slice l lo hi max.
+  Proof.
+    intros Hlo Hla. unfold RaftLog.slice.
+    assert (Hmc : must_check_outofbounds l' lo hi = must_check_outofbounds l lo hi).
+    { unfold must_check_outofbounds. destruct cpt_log_first_index as [F' F]. rewrite F', F.
+      rewrite cpt_log_last_index.
+      destruct (hi <? lo); [reflexivity|].
+      destruct (u_maybe_first_index (unst l)) as [fi|]; [reflexivity|]. cbn [bind].
+      destruct (lo <? ci) eqn:E1; [lia|]. destruct (lo <? first_of m) eqn:E2; [lia|].
+      cbn [orb].
+      replace (ci + (last_index l + 1 - ci)) with (last_index l + 1) by lia.
+      replace (first_of m + (last_index l + 1 - first_of m)) with (last_index l + 1) by lia.
+      reflexivity. }
+    rewrite Hmc.
+    destruct (must_check_outofbounds l lo hi) as [[e|]|s] eqn:Emc; cbn [bind]; try reflexivity.
+    destruct (lo =? hi) eqn:Eeq; [reflexivity|].
+    change (unst l') with (unst l).
+    assert (Hhi : lo <= hi).
+    { unfold must_check_outofbounds in Emc. destruct (hi <? lo) eqn:E; [discriminate|lia]. }
+    destruct (lo <? u_offset (unst l)) eqn:Eoff; [|reflexivity].
+    unfold store_entries. change (store l') with m'. rewrite Hst.
+    rewrite (cpt_storage_entries lo (N.min hi (u_offset (unst l))) max (CtxEmpty false) Hlo
+               ltac:(lia)).
+    reflexivity.
+  Qed.
+
+  Lemma cpt_log_entries i max :
+    ci <= i -> ci <= last_index l + 1 -> log_entries l' i max = log_entries l i max.
+  Proof.
+    intros Hi Hla. unfold log_entries. rewrite cpt_log_last_index.
+    destruct (last_index l <? i); [reflexivity|]. apply cpt_log_slice; assumption.
+  Qed.
+End Compaction.
+
+Theorem compaction_transparent l ci :
+  RepInv (store l) -> first_of (store l) < ci -> ci < next_of (store l) ->
+  ci <= applied l -> applied l <= last_index l ->
+  exists m', compact (store l) ci = Ok m' /\ RepInv m' /\ first_of m' = ci /\
+    let l' := set_store l m' in
+    committed l' = committed l /\ applied l' = applied l /\ persisted l' = persisted l /\
+    unst l' = unst l /\ last_index l' = last_index l /\
+    RaftLog.first_index l' = match u_maybe_first_index (unst l) with
+                             | Some i => Ok i | None => Ok ci end /\
+    (forall i, ci <= i -> RaftLog.term l' i = RaftLog.term l i) /\
+    (forall lo hi max, ci <= lo -> RaftLog.slice l' lo hi max = RaftLog.slice l lo hi max) /\
+    (forall i max, ci <= i -> log_entries l' i max = log_entries l i max).
+Proof.
+  intros HI H1 H2 Ha Hal.
+  destruct (cpt_compact (store l) ci HI H1 H2) as (A & B & C0).
+  eexists. split; [exact A|]. split; [exact B|]. split; [exact C0|].
+  cbn zeta. repeat split.
+  - exact (cpt_log_last_index (store l) ci HI H1 H2 l eq_refl).
+  - exact (proj1 (cpt_log_first_index (store l) ci HI H1 H2 l eq_refl)).
+  - intros i Hi. exact (cpt_log_term (store l) ci HI H1 H2 l eq_refl i Hi).
+  - intros lo hi max Hlo. apply (cpt_log_slice (store l) ci HI H1 H2 l eq_refl); [exact Hlo|lia].
+  - intros i max Hi. apply (cpt_log_entries (store l) ci HI H1 H2 l eq_refl); [exact Hi|lia].
+Qed.
+
+(* compaction at or below the first index is a no-op *)
+Theorem compaction_noop l ci :
+  RepInv (store l) -> ci <= first_of (store l) -> compact (store l) ci = Ok (store l).
+Proof. intros HI H. apply compact_noop; assumption. Qed.
